@@ -64,8 +64,8 @@ where
     vcommon::catch(|| sim.exhaustive(thunk))
 }
 
-/// What a worker (thread) observed; merged into the `Reporter` by the test's main thread.
-#[derive(Default)]
+/// What a worker (thread or child process) observed; merged into the `Reporter` by the test's main thread.
+#[derive(Default, serde::Serialize, serde::Deserialize)]
 pub struct Partial {
     pub evals: u64,
     pub counters: BTreeMap<String, u64>,
